@@ -1039,7 +1039,7 @@ func (m *Machine) PanicToErr(args A) {
 	if err, ok := r.(error); ok {
 		m.AddErr(err, args)
 	} else {
-		m.AddErr(fmt.Errorf("%v", err), args)
+		m.AddErr(fmt.Errorf("%v", r), args)
 	}
 }
 
@@ -1061,7 +1061,7 @@ func (m *Machine) PanicToErrState(state string, args A) {
 	if err, ok := r.(error); ok {
 		m.AddErrState(state, err, args)
 	} else {
-		m.AddErrState(state, fmt.Errorf("%v", err), args)
+		m.AddErrState(state, fmt.Errorf("%v", r), args)
 	}
 }
 
